@@ -4,7 +4,7 @@
 export GOFLAGS=-mod=mod GOPROXY=off GOSUMDB=off GOTOOLCHAIN=local
 cd "$(dirname "$0")" || exit 2
 ROOT=$(pwd)
-export VERIF_ROOT=$ROOT
+export VERIF_ROOT=${VERIF_ROOT_OVERRIDE:-$ROOT}
 id=$1; shift
 [ -n "$id" ] || { echo "usage: run.sh <Cxx> <quick|thorough>|--replay <file>" >&2; exit 2; }
 W=$ROOT/.work/$id.$$
